@@ -306,6 +306,13 @@ def crash_signature(stderr):
         elif 'AddressSanitizer: ABRT' in stderr:
             kind = 'abort'
     frame = '?'
+    if kind.startswith('tsan'):
+        for m in re.finditer(r'#\d+ ([^\n]+?) (/[^\s:]+):(\d+)', stderr):
+            fn, path = m.group(1), m.group(2)
+            if '/src/oomd/' in path:
+                frame = re.sub(r'\(.*', '', fn).strip() + '@' + os.path.basename(path)
+                break
+        return '%s in %s' % (kind, frame)
     for m in re.finditer(r'#\d+ 0x[0-9a-f]+ in ([^\n]+?) (/[^\s:]+):(\d+)', stderr):
         fn, path = m.group(1), m.group(2)
         if '/src/oomd/' in path:
